@@ -90,7 +90,7 @@ def gen_decls(rng, names, vis, n_items, allow=("enum", "struct", "impl", "servic
             for fi, fn in enumerate(rng.sample(S.WORDS, nf)):
                 f = {"name": fn, "id": fi, "type": gen_type(rng, vis["structs"], vis["enums"])}
                 if rng.random() < 0.2:
-                    f["unit"] = rng.choice(["C", "V", "rpm", "%", "m/s"])
+                    f["unit"] = rng.choice(["C", "V", "rpm", "%", "m/s", "\u00b0C", "\u00b5s", "\u03a9"])
                 if rng.random() < 0.12 and f["type"][0] in ("u", "i", "f32", "f64"):
                     f["range"] = [0.0, rng.randint(1, 100) + 0.5]
                 fields.append(f)
@@ -209,14 +209,28 @@ def gen_tree(rng, max_depth=3, budget=None, same_basename_p=0.06):
         # a device declared inside a module may carry the name of a struct/enum the importer already knows at that point
         # (declared or imported earlier): devices and types have separate name spaces
         known = []
+        known_structs = []
         for it in items:
             if it["kind"] == "mod":
                 devs = [d for d in it["node"]["items"] if d["kind"] == "device"]
                 if known and devs and rng.random() < 0.35:
                     rng.choice(devs)["name"] = rng.choice(known)
+                if known_structs and rng.random() < 0.2:
+                    # a binding moved into the module although its struct stays in the importer: `impl` needs no
+                    # resolution at parse time, so this is still a declare-before-use-respecting split
+                    st = rng.choice(known_structs)
+                    proto = rng.choice(["can", "lin", "default", "default"])
+                    nm = st if proto == "default" or rng.random() < 0.5 else f"{st}In{len(it['node']['items'])}"
+                    if (nm, proto) not in vis["impls"]:
+                        vis["impls"].append((nm, proto))
+                        it["node"]["items"].append({"kind": "impl", "protocol": proto, "type": st, "name": nm,
+                                                    "fields": [["id", rng.randint(1, 2000)]], "signals": []})
                 known += it["node"]["exports"]["structs"] + it["node"]["exports"]["enums"]
+                known_structs += it["node"]["exports"]["structs"]
             elif it["kind"] in ("struct", "enum"):
                 known.append(it["name"])
+                if it["kind"] == "struct":
+                    known_structs.append(it["name"])
         return {"path": None, "file": filerel, "items": items, "exports": vis}
 
     root = build(1, "", "main.fcp")
@@ -292,6 +306,10 @@ def sync_files(base: Path, files: dict):
             rel = os.path.normpath(os.path.relpath(os.path.join(dp, f), base))
             if rel not in want:
                 os.remove(os.path.join(dp, f))
+    # directories that hold no wanted file any more disappear as well
+    for dp, dn, fn in os.walk(base, topdown=False):
+        if dp != str(base) and not os.listdir(dp):
+            os.rmdir(dp)
     write_files(base, files)
 
 
